@@ -1,6 +1,7 @@
     // @unit name=user_reader file=dds/src/dcps/dcps_domain_participant/user_defined_data_reader.rs unwind=3 unwindset=memcmp.0:18 loops=status_mask::StatusMask:15
     // Child module of user_defined_data_reader.rs (C19, C16, C23): status bookkeeping of the REAL UserDefinedDataReader,
     // built through UserDefinedDataReader::new with a real RtpsStatefulReader.
+    // @assume C23: UserDefinedDataReader::read is replaced by a stub stating its contract (the C20 obligations are the evidence for that contract, at the C20 bound of one stored sample); with the real body inlined twice CBMC does not finish within 40 min. Under native replay (no stubbing) the REAL read runs, so a replayed counterexample is a counterexample of the real code
     // @assume status counters below i32::MAX (2^31 rejections / matches are out of scope; += 1 would overflow there)
 
     use crate::transport::types::{EntityId, Guid, ReliabilityKind};
@@ -56,5 +57,160 @@
         assert!(r.sample_rejected_status.total_count == t0 + 1 && r.sample_rejected_status.total_count_change == 0,
             "C19: reading the status resets only the change counter");
         kani::cover!(t0 == i32::MAX - 1);
+        core::mem::forget(r);
+    }
+
+    // ---------------------------------------------------------------- C23: read_next_instance / take_next_instance
+    use crate::dcps::dcps_domain_participant::data_reader_entity::{InstanceState, ReaderSample};
+    use crate::transport::types::ChangeKind;
+    use alloc::sync::Arc;
+
+    fn ihb(b: u8) -> InstanceHandle {
+        InstanceHandle::new([b, 0, 0, 0, 0, 0, 0, 0, 0, 0, 0, 0, 0, 0, 0, 0])
+    }
+
+    /// Contract of UserDefinedDataReader::read for a requested instance handle and masks ANY, as decided by the C20
+    /// obligations (data_reader_entity.rs: the samples of the requested instance that match the masks are returned, NoData
+    /// iff there is none, BadParameter for an unknown instance).  Used INSTEAD of the body of read when read_next_instance
+    /// is verified (modular verification: the caller is checked against the callee's contract, not its body - inlining
+    /// read twice does not finish in CBMC within 40 min).
+    fn read_contract_stub(
+        this: &mut UserDefinedDataReader,
+        max_samples: i32,
+        _sample_states: &[SampleStateKind],
+        _view_states: &[ViewStateKind],
+        _instance_states: &[InstanceStateKind],
+        specific_instance_handle: &Option<InstanceHandle>,
+    ) -> DdsResult<SampleList> {
+        let Some(h) = specific_instance_handle else { return Err(DdsError::BadParameter) };
+        if !this.reader.instances.iter().any(|x| x.handle() == h) {
+            return Err(DdsError::BadParameter);
+        }
+        let mut out: SampleList = Vec::new();
+        let mut i = 0;
+        while i < this.reader.sample_list.len() {
+            let s = &this.reader.sample_list[i];
+            if &s.instance_handle == h && (out.len() as i32) < max_samples {
+                out.push((s.data_value.clone(), crate::infrastructure::sample_info::SampleInfo {
+                    sample_state: s.sample_state,
+                    view_state: ViewStateKind::New,
+                    instance_state: InstanceStateKind::Alive,
+                    disposed_generation_count: s.disposed_generation_count,
+                    no_writers_generation_count: s.no_writers_generation_count,
+                    sample_rank: 0,
+                    generation_rank: 0,
+                    absolute_generation_rank: 0,
+                    source_timestamp: s.source_timestamp,
+                    instance_handle: s.instance_handle,
+                    publication_handle: InstanceHandle::new(s.writer_guid),
+                    valid_data: true,
+                }));
+            }
+            i += 1;
+        }
+        if out.is_empty() { Err(DdsError::NoData) } else { Ok(out) }
+    }
+
+    /// C23: read_next_instance skips instances without matching samples.  A reader that knows instance 1 (no sample left,
+    /// e.g. all taken) and instance 2 (one NOT_READ ALIVE sample); masks ANY, max_samples 5; previous handle arbitrary among
+    /// {none, 0, 1, 2}: for every previous handle below 2 the call returns the sample of instance 2 - the first instance
+    /// above the given handle that HAS samples matching the masks - and NoData only for previous = 2, when no such
+    /// instance exists.
+    /// @props C23
+    /// @kind bounded
+    /// @tier quick
+    /// @timeout 1200
+    /// @bounds 2 known instances, 1 stored sample, masks ANY; UserDefinedDataReader::read replaced by its contract (stub)
+    /// @cbmc --unwind 4 --unwindset memcmp.0:18
+    /// @fn UserDefinedDataReader::read_next_instance, DataReaderEntity::next_instance, DataReaderEntity::read
+    #[cfg_attr(kani, kani::proof)]
+    #[cfg_attr(kani, kani::stub(alloc::fmt::format, verif_support::fmt_format_stub))]
+    #[cfg_attr(kani, kani::stub(UserDefinedDataReader::read, read_contract_stub))]
+    fn c23_read_next_instance_skips_instances_without_matching_samples() {
+        let mut r = mk_user_reader();
+        r.reader.enabled = true;
+        r.reader.instances.push(InstanceState::new(ihb(1)));
+        r.reader.instances.push(InstanceState::new(ihb(2)));
+        r.reader.sample_list.push(ReaderSample {
+            kind: ChangeKind::Alive,
+            writer_guid: [7; 16],
+            instance_handle: ihb(2),
+            source_timestamp: None,
+            data_value: Arc::from([42u8].as_slice()),
+            sample_state: SampleStateKind::NotRead,
+            disposed_generation_count: 0,
+            no_writers_generation_count: 0,
+        });
+        let sel: u8 = kani::any();
+        kani::assume(sel <= 3);
+        let previous = if sel == 0 { None } else { Some(ihb(sel - 1)) };
+        let res = r.read_next_instance(5, &previous,
+            &[SampleStateKind::Read, SampleStateKind::NotRead],
+            &[ViewStateKind::New, ViewStateKind::NotNew],
+            &[InstanceStateKind::Alive, InstanceStateKind::NotAliveDisposed, InstanceStateKind::NotAliveNoWriters]);
+        if sel <= 2 {
+            match &res {
+                Ok(l) => assert!(l.len() == 1 && l[0].1.instance_handle == ihb(2) && l[0].0[0] == 42,
+                    "C23: the samples of the first instance above the given handle that has matching samples are returned"),
+                Err(_) => assert!(false, "C23: NoData only if no instance above the given handle has matching samples"),
+            }
+        } else {
+            assert!(matches!(&res, Err(DdsError::NoData)), "C23: NoData when no further instance has matching samples");
+        }
+        kani::cover!(sel == 0);
+        kani::cover!(sel == 3);
+        core::mem::forget(res);
+        core::mem::forget(r);
+    }
+
+    /// C23: take_next_instance skips instances without matching samples (twin of the read obligation).  A reader that knows instance 1 (no sample left,
+    /// e.g. all taken) and instance 2 (one NOT_READ ALIVE sample); masks ANY, max_samples 5; previous handle arbitrary among
+    /// {none, 0, 1, 2}: for every previous handle below 2 the call returns the sample of instance 2 - the first instance
+    /// above the given handle that HAS samples matching the masks - and NoData only for previous = 2, when no such
+    /// instance exists.
+    /// @props C23
+    /// @kind bounded
+    /// @tier quick
+    /// @timeout 1200
+    /// @bounds 2 known instances, 1 stored sample, masks ANY; UserDefinedDataReader::take replaced by its contract (stub; removal of the returned samples is not modelled, it does not influence the walk)
+    /// @cbmc --unwind 4 --unwindset memcmp.0:18
+    /// @fn UserDefinedDataReader::take_next_instance, DataReaderEntity::next_instance, DataReaderEntity::take
+    #[cfg_attr(kani, kani::proof)]
+    #[cfg_attr(kani, kani::stub(alloc::fmt::format, verif_support::fmt_format_stub))]
+    #[cfg_attr(kani, kani::stub(UserDefinedDataReader::take, read_contract_stub))]
+    fn c23_take_next_instance_skips_instances_without_matching_samples() {
+        let mut r = mk_user_reader();
+        r.reader.enabled = true;
+        r.reader.instances.push(InstanceState::new(ihb(1)));
+        r.reader.instances.push(InstanceState::new(ihb(2)));
+        r.reader.sample_list.push(ReaderSample {
+            kind: ChangeKind::Alive,
+            writer_guid: [7; 16],
+            instance_handle: ihb(2),
+            source_timestamp: None,
+            data_value: Arc::from([42u8].as_slice()),
+            sample_state: SampleStateKind::NotRead,
+            disposed_generation_count: 0,
+            no_writers_generation_count: 0,
+        });
+        let sel: u8 = kani::any();
+        kani::assume(sel <= 3);
+        let previous = if sel == 0 { None } else { Some(ihb(sel - 1)) };
+        let res = r.take_next_instance(5, &previous,
+            &[SampleStateKind::Read, SampleStateKind::NotRead],
+            &[ViewStateKind::New, ViewStateKind::NotNew],
+            &[InstanceStateKind::Alive, InstanceStateKind::NotAliveDisposed, InstanceStateKind::NotAliveNoWriters]);
+        if sel <= 2 {
+            match &res {
+                Ok(l) => assert!(l.len() == 1 && l[0].1.instance_handle == ihb(2) && l[0].0[0] == 42,
+                    "C23: the samples of the first instance above the given handle that has matching samples are returned"),
+                Err(_) => assert!(false, "C23: NoData only if no instance above the given handle has matching samples"),
+            }
+        } else {
+            assert!(matches!(&res, Err(DdsError::NoData)), "C23: NoData when no further instance has matching samples");
+        }
+        kani::cover!(sel == 0);
+        kani::cover!(sel == 3);
+        core::mem::forget(res);
         core::mem::forget(r);
     }
